@@ -1,8 +1,7 @@
 (* Proofs/LedgerProofs.v — what an accepted block implies in the ledger model
    (inversion of exec_block, processTransactions, VerifyBlockTxnConstraints),
    rejected blocks are no-ops, and the C04 lemmas. *)
-From Sky Require Import Base.Uint Model.ArithSpec Gen.Mathutil Model.Ledger Model.LedgerSpec
-  Proofs.UintLemmas Proofs.MathutilProofs Proofs.LedgerBasics.
+From Sky Require Import Base.Uint Model.Ledger Model.LedgerSpec Proofs.LedgerBasics.
 From Coq Require Import Lia ZifyBool Permutation.
 Open Scope Z_scope.
 
@@ -161,37 +160,6 @@ Proof.
   - assumption.
 Qed.
 
-Lemma coins_spending_inv uxin outs : coins_spending uxin outs = Pass ->
-  Forall (fun u => in_u 64 (u_coins u)) uxin -> Forall (fun o => in_u 64 (o_coins o)) outs ->
-  coins_of uxin = sumZ (map o_coins outs) /\ in_u 64 (coins_of uxin).
-Proof.
-  unfold coins_spending, coins_of. intros H Hi Ho.
-  assert (Hi' : Forall (in_u 64) (map u_coins uxin)) by (apply Forall_map; assumption).
-  assert (Ho' : Forall (in_u 64) (map o_coins outs)) by (apply Forall_map; assumption).
-  assert (H0 : in_u 64 0) by (unfold in_u; lia).
-  destruct (add_all 0 (map u_coins uxin)) as [|[cin|]] eqn:E1; try discriminate.
-  destruct (add_all 0 (map o_coins outs)) as [|[cout|]] eqn:E2; try discriminate.
-  destruct (add_all_spec _ _ _ H0 Hi' E1) as [A1 A2].
-  destruct (add_all_spec _ _ _ H0 Ho' E2) as [B1 B2].
-  chk_split H. apply guard_pass in Hc, H.
-  split; [lia|]. replace (sumZ (map u_coins uxin)) with cin by lia. assumption.
-Qed.
-
-Lemma block_txn_inv pool head t : block_txn_constraints pool head t = Pass ->
-  Forall (fun u => in_u 64 (u_coins u)) pool -> Forall (fun o => in_u 64 (o_coins o)) (t_outs t) ->
-  exists uxin, get_array (t_ins t) pool = Some uxin /\
-    t_ins t <> [] /\ NoDup (t_ins t) /\ NoDup (map o_id (t_outs t)) /\
-    coins_of uxin = sumZ (map o_coins (t_outs t)) /\ in_u 64 (coins_of uxin).
-Proof.
-  unfold block_txn_constraints. intros H Hp Ho.
-  destruct (get_array (t_ins t) pool) as [uxin|] eqn:E; [|discriminate].
-  chk_split H. destruct (txn_verify_inv _ Hc) as [V1 [V2 [V3 [V4 [V5 V6]]]]].
-  assert (Hu : Forall (fun u => in_u 64 (u_coins u)) uxin).
-  { destruct (get_array_spec _ _ _ E) as [_ G2]. rewrite Forall_forall in *. auto. }
-  destruct (coins_spending_inv _ _ Hc2 Hu Ho) as [C1 C2].
-  exists uxin. split; [reflexivity|]. split; [assumption|]. split; [assumption|]. split; [assumption|].
-  split; assumption.
-Qed.
 (* the part that needs no range assumption *)
 Lemma block_txn_inv0 pool head t : block_txn_constraints pool head t = Pass ->
   exists uxin, get_array (t_ins t) pool = Some uxin /\
@@ -218,4 +186,67 @@ Proof.
   - apply pairwise_nodup; [assumption|].
     rewrite Forall_forall in *. intros t Ht. destruct (block_txn_inv0 _ _ _ (T1 t Ht)) as [u [_ [_ [N _]]]].
     assumption.
+Qed.
+
+(* ---- induction over histories *)
+Lemma run_invariant (P : state -> Prop) (Q : block -> Prop) :
+  (forall s b s', exec_block s b = (s', Accepted) -> Q b -> P s -> P s') ->
+  forall ops s, P s -> Forall (fun o => Q (op_block o)) ops -> P (run s ops).
+Proof.
+  intros Hstep. induction ops as [|o r IH]; intros s Hs Hq; [exact Hs|].
+  inversion Hq as [|? ? Hq1 Hq2]; subst. unfold run. cbn [fold_left]. fold (run (fst (step s o)) r).
+  apply IH; [|assumption]. destruct o as [b]. cbn [step op_block] in *.
+  destruct (exec_block s b) as [s1 out] eqn:E. cbn [fst].
+  destruct out.
+  - exact (Hstep _ _ _ E Hq1 Hs).
+  - rewrite (exec_reject_noop _ _ _ _ E); [assumption|discriminate].
+  - rewrite (exec_reject_noop _ _ _ _ E); [assumption|discriminate].
+Qed.
+
+Lemma run_app s a b : run s (a ++ b) = run (run s a) b.
+Proof. unfold run. apply fold_left_app. Qed.
+
+(* ---- created outputs *)
+Lemma ids_app a b : ids (a ++ b) = ids a ++ ids b.
+Proof. unfold ids. apply map_app. Qed.
+Lemma created_ids_eq b : ids (created b) = out_ids (b_txns b).
+Proof.
+  unfold created, out_ids, ids. induction (b_txns b) as [|t r IH]; cbn [flat_map]; [reflexivity|].
+  rewrite !map_app, IH. f_equal. unfold created_of. rewrite map_map. reflexivity.
+Qed.
+
+Lemma apply_block_utxo s b spent :
+  utxo (apply_block s b spent) = remove_ids (all_ins (b_txns b)) (utxo s) ++ created b.
+Proof. reflexivity. Qed.
+
+Lemma new_utxo_nodup s b :
+  NoDup (ids (utxo s)) -> NoDup (out_ids (b_txns b)) -> insert_ok s b = true ->
+  NoDup (ids (remove_ids (all_ins (b_txns b)) (utxo s) ++ created b)).
+Proof.
+  intros Hn Ho Hi. rewrite ids_app. apply NoDup_app_intro.
+  - apply NoDup_ids_filter. assumption.
+  - rewrite created_ids_eq. assumption.
+  - intros x Hx Hc. unfold ids in Hc at 1. apply in_map_iff in Hc. destruct Hc as [u [Hu1 Hu2]].
+    unfold insert_ok in Hi. rewrite forallb_forall in Hi. specialize (Hi u Hu2).
+    apply Bool.negb_true_iff in Hi. apply memZ_false in Hi. subst x. contradiction.
+Qed.
+
+
+(* the unspent set never lists an id twice (needs no arithmetic and no id-table hypothesis) *)
+Lemma apply_preserves_nodup s b head spent :
+  process_txns (utxo s) head (b_txns b) = Pass -> insert_ok s b = true ->
+  NoDup (ids (utxo s)) -> NoDup (ids (utxo (apply_block s b spent))).
+Proof.
+  intros Hp Hi Hn. destruct (process_txns_inv _ _ _ Hp) as [_ [_ [P2 _]]].
+  rewrite apply_block_utxo. apply new_utxo_nodup; assumption.
+Qed.
+Lemma reachable_nodup g ops : NoDup (out_ids (b_txns g)) ->
+  NoDup (ids (utxo (run (init_state g) ops))).
+Proof.
+  intros Hg. apply (run_invariant (fun s => NoDup (ids (utxo s))) (fun _ => True)).
+  - intros s b s' He _ Hn.
+    destruct (exec_accept_inv _ _ _ He) as [head [rest [spent [_ [_ [_ [_ [Hp [_ [_ [_ [Hi Es]]]]]]]]]]]].
+    subst s'. exact (apply_preserves_nodup _ _ _ _ Hp Hi Hn).
+  - unfold init_state. cbn [utxo]. rewrite created_ids_eq. assumption.
+  - apply Forall_forall. intros; exact I.
 Qed.
